@@ -348,6 +348,7 @@ def run(ctx):
     totals = {"accepted": 0, "delivered": 0, "stops": 0, "sync_after_stop": 0, "during_stop": 0, "foreign": 0, "tsan_reports": 0, "tsan_env_noise": 0}
     samples = []
     bypath = {}
+    harness_only = []
     for sc, (events, status) in zip(scs, results):
         if not events:
             raise core.Inconclusive("child produced no events: %s :: %s" % (sc, status["stderr"][-500:]))
@@ -373,7 +374,7 @@ def run(ctx):
             for k, raw in viol.items():
                 found.append(("C04:" + k, raw[:2500]))
             if harness:
-                raise core.Inconclusive("TSan report in harness code only: %s" % list(harness.items())[0][1][:1500])
+                harness_only.append(list(harness.values())[0][:1500])
         for key, what in found:
             ctx.violation(key, "%s :: %s" % ({k: v for k, v in sc.items() if k != "racer_budget"}, what), sc)
         for k in ("accepted", "delivered", "stops", "sync_after_stop", "during_stop", "foreign"):
@@ -384,6 +385,10 @@ def run(ctx):
                           sc["racer_pause_us"] == 0))
         if len(samples) < 4 and stats["stops"]:
             samples.append({"scenario": sc, "stats": stats, "hooks": status["hooks"], "first_events": [list(e) for e in events[:12]]})
+    if harness_only and not ctx.fresh_violations():
+        # a race report whose stacks show harness frames only says nothing about the library; it voids the run unless the run already has
+        # a verdict of its own (with the library's locks broken the harness' recorders, which rely on them, race as well)
+        raise core.Inconclusive("TSan report in harness code only: %s" % harness_only[0])
     cov = {
         "evaluations": evals,
         "distinct_nontrivial": len(distinct),
